@@ -151,12 +151,15 @@ theorem incomplete_has_next (No Nk : Nat) (s : St) (hi : Inv No Nk s) (hr : s.re
 /-- one round of the sync loop (`state_sync.rs`): deliveries, then `apply_next_segments` -/
 def round (feed : St → List Delivery) (s : St) : St := (s.deliverAll (feed s)).applyNextSegments
 
-def rounds (feed : St → List Delivery) : Nat → St → St
-  | 0, s => s
-  | n + 1, s => rounds feed n (round feed s)
+/-- `n` rounds.  (The round count is the LAST argument on purpose: the kernel compares the
+arguments of `rounds … =?= rounds …` from the last one backwards, and refuting `s =?= round feed s`
+means unfolding the whole machine.) -/
+def rounds (feed : St → List Delivery) : St → Nat → St
+  | s, 0 => s
+  | s, n + 1 => rounds feed (round feed s) n
 
 theorem rounds_succ (feed : St → List Delivery) (n : Nat) (s : St) :
-    rounds feed (n + 1) s = rounds feed n (round feed s) := rfl
+    rounds feed s (n + 1) = rounds feed (round feed s) n := rfl
 
 theorem round_inv (No Nk : Nat) (feed : St → List Delivery)
     (hclean : ∀ s, ∀ d ∈ feed s, d.kind = .bitmap → d.seg.extra = 0) (s : St) (hi : Inv No Nk s) :
@@ -184,13 +187,13 @@ anything else, in any order — the segment the desegmenter needs next, then aft
 theorem honest_sync_completes (No Nk : Nat) (feed : St → List Delivery)
     (hclean : ∀ s, ∀ d ∈ feed s, d.kind = .bitmap → d.seg.extra = 0)
     (hserve : ∀ s, Inv No Nk s → s.remaining ≠ 0 → Needed No Nk (s.deliverAll (feed s))) :
-    ∀ (n : Nat) (s : St), Inv No Nk s → s.remaining ≤ n → (rounds feed n s).checkProgress = true
+    ∀ (n : Nat) (s : St), Inv No Nk s → s.remaining ≤ n → (rounds feed s n).checkProgress = true
   | 0, s, hi, hr => (checkProgress_iff No Nk s hi).mpr (Nat.le_zero.mp hr)
   | n + 1, s, hi, hr => by
     rw [rounds_succ]
     refine honest_sync_completes No Nk feed hclean hserve n _ (round_inv No Nk feed hclean s hi) ?_
     by_cases h0 : s.remaining = 0
-    · exact Nat.le_trans (round_remaining_le No Nk feed hclean s hi) (h0 ▸ Nat.zero_le n)
+    · exact Nat.le_trans (round_remaining_le No Nk feed hclean s hi) (by rw [h0]; exact Nat.zero_le n)
     · exact Nat.le_of_lt_succ
         (Nat.lt_of_lt_of_le (round_remaining_lt No Nk feed hclean s hi (hserve s hi h0)) hr)
 
